@@ -84,6 +84,11 @@ type memberSpec struct {
 	Unrel  bool   `json:"unrel"`
 	WFail  bool   `json:"wfail"`
 	CErr   bool   `json:"cerr"`
+	// the member counts like a real transport: it had traffic before it joined the group and it
+	// counts a per-message framing overhead on top of the payload
+	Tx0 uint64 `json:"tx0,omitempty"`
+	Rx0 uint64 `json:"rx0,omitempty"`
+	Ovh uint64 `json:"ovh,omitempty"`
 }
 
 type pollCfg struct {
@@ -128,6 +133,7 @@ type core struct {
 	unrelN   int
 	closes   []uint64
 	rx, tx   atomic.Uint64
+	nread    atomic.Uint64
 	readCh   chan readItem
 	entries  atomic.Int64
 	closedCh chan struct{}
@@ -141,7 +147,8 @@ func (c *core) Read() ([]byte, error) {
 		if it.err != nil {
 			return nil, it.err
 		}
-		c.rx.Add(uint64(len(it.bs)))
+		c.nread.Add(1)
+		c.rx.Add(uint64(len(it.bs)) + c.spec.Ovh)
 		return it.bs, nil
 	case <-c.closedCh:
 		return nil, ierrors.ErrConnectionClosed
@@ -168,7 +175,7 @@ func (c *core) Write(bs []byte) error {
 		return ierrors.ErrConnectionClosed
 	}
 	c.wlog = append(c.wlog, append([]byte(nil), bs...))
-	c.tx.Add(uint64(len(bs)))
+	c.tx.Add(uint64(len(bs)) + c.spec.Ovh)
 	return nil
 }
 
@@ -381,6 +388,8 @@ func runCase(ci *caseIn) (term string, observed interface{}, direct string) {
 	byID := map[uint64]*core{}
 	for _, ms := range ci.Members {
 		c := &core{id: tid(ms.ID), spec: ms, readCh: make(chan readItem, 256), closedCh: make(chan struct{})}
+		c.tx.Store(ms.Tx0)
+		c.rx.Store(ms.Rx0)
 		cores = append(cores, c)
 		byID[ms.ID] = c
 		if ms.Closer {
@@ -683,7 +692,17 @@ func runCase(ci *caseIn) (term string, observed interface{}, direct string) {
 				emit("Counters", "OPanic")
 				direct = fmt.Sprintf("event %d: counters panic=%v blocked=%v", i, p, blocked)
 			} else {
-				emit("Counters", fmt.Sprintf("OCounters %d %d", rx, tx))
+				// canonical observation: the multi counters relative to what the members had counted
+				// before they joined and net of their framing overhead (computed from the members' own
+				// logs) - equal to the payload bytes iff multi reports the SUM OF THE MEMBERS' OWN counters
+				var crx, ctx uint64
+				for _, c := range cores {
+					c.mu.Lock()
+					ctx += c.spec.Tx0 + c.spec.Ovh*uint64(len(c.wlog))
+					c.mu.Unlock()
+					crx += c.spec.Rx0 + c.spec.Ovh*c.nread.Load()
+				}
+				emit("Counters", fmt.Sprintf("OCounters %d %d", rx-crx, tx-ctx))
 			}
 		case "close":
 			var err error
@@ -759,7 +778,8 @@ func genCase(r *rng.R) (*caseIn, string, bool) {
 		}
 		used[id] = true
 		ci.Members = append(ci.Members, memberSpec{ID: id, GidOK: true, GCount: uint64(nm),
-			Closer: r.Chance(3, 4), Unrel: r.Bool(), WFail: r.Chance(1, 8), CErr: r.Chance(1, 8)})
+			Closer: r.Chance(3, 4), Unrel: r.Bool(), WFail: r.Chance(1, 8), CErr: r.Chance(1, 8),
+			Tx0: uint64(r.Intn(1001)), Rx0: uint64(r.Intn(1001)), Ovh: uint64(r.Intn(10))})
 	}
 	kind := "valid"
 	if nm > 0 && r.Chance(1, 14) {
@@ -944,7 +964,7 @@ func genExhaustive(depth int, add func(*caseIn, string, bool)) {
 	var rec func(prefix []evIn)
 	rec = func(prefix []evIn) {
 		if len(prefix) == depth {
-			ci := &caseIn{Members: []memberSpec{{ID: 1, GidOK: true, GCount: 2, Closer: true}, {ID: 2, GidOK: true, GCount: 2, Unrel: true}},
+			ci := &caseIn{Members: []memberSpec{{ID: 1, GidOK: true, GCount: 2, Closer: true, Tx0: 17, Rx0: 5, Ovh: 3}, {ID: 2, GidOK: true, GCount: 2, Unrel: true, Tx0: 400, Rx0: 250, Ovh: 7}},
 				Initial: 2, Mode: 1, Event: &eventCfg{Kind: "script"}}
 			ci.Evs = append(ci.Evs, prefix...)
 			q := 0
